@@ -246,8 +246,10 @@ class LiteralMarshaller(AbstractMarshaller[LiteralT], tp.Generic[LiteralT]):
         Raises:
             ValueError: If `val` is not a member of the bound `Literal` type.
         """
-        if val in self.values:
-            return val  # type: ignore[return-value]
+        # Membership is typed: `True == 1` and `Decimal(1) == 1`, but neither is the literal `1`.
+        for member in self.values:
+            if val.__class__ is member.__class__ and val == member:
+                return val  # type: ignore[return-value]
 
         raise ValueError(f"{val!r} is not one of {self.values!r}")
 
